@@ -2,7 +2,7 @@
 # usage: determinism.sh <ID> <runs> [seed]  - same seeds in separate processes under GOMAXPROCS 1/4/16 (x2 each); digests must agree
 set -u
 id=$1; n=$2; seed=${3:-777}
-cd /verif/dsim && export GOFLAGS=-mod=mod GOPROXY=off && go build -tags verif -o bin/check ./cmd/check || exit 2
+cd /verif/dsim && export GOFLAGS=-mod=mod GOPROXY=off && { go build -tags verif -o bin/check ./cmd/check && go test -c -tags verif -o bin/plat.test ./plat; } || exit 2
 d=$(mktemp -d)
 k=0
 for gmp in 1 4 16 1 4 16; do
